@@ -10,79 +10,193 @@ concatenation is the input.  (The external layers in front of `ChunkedChars` —
 `BufReader` — re-chunk the user's partition; whatever they do is again such a schedule.)
 -/
 namespace SaphyrVerif.Props.C09
-open SaphyrVerif SaphyrVerif.Reader SaphyrVerif.Spec.Utf8 SaphyrVerif.Lemmas.C09 SaphyrVerif.IoCell
+open SaphyrVerif SaphyrVerif.Reader SaphyrVerif.Spec.Utf8 SaphyrVerif.Spec.Lines SaphyrVerif.Lemmas.C09 SaphyrVerif.IoCell
 
-/-- (T) chunked_chars_decode.  For EVERY byte list and EVERY schedule of non-empty read results, the
-characters produced by `ChunkedChars` up to its first `None` are a strict UTF-8 decoding of a prefix
-of the input: the input is exactly `encode chars ++ rest` (no byte dropped, no wrong character), the
-remainder is empty iff no error was recorded, and a non-empty remainder does not begin with any
-well-formed encoded character (it is malformed or truncated). -/
+/-- (T) chunked_chars_decode.  For EVERY byte list and EVERY schedule of non-empty read results: let `pre`
+be the strict UTF-8 decoding of the longest well-formed prefix — the input is exactly
+`encode pre ++ rest` and a non-empty `rest` begins with no well-formed encoded character (it is malformed
+or truncated).  The characters `ChunkedChars` yields up to its first `None` are `pre`, followed — exactly
+when the unterminated last line of `pre` starts with `%` — by ONE synthetic line break (and then
+whatever a reader that goes on after the malformed sequence still delivers: `more`, empty when the input
+simply ended).  No error is recorded iff `rest` is empty.  Never a wrong character, never a dropped
+byte, independent of the schedule. -/
 theorem chunked_chars_decode (sched : Sched) (hs : chunked sched = true) :
     let r := collectAll { reader := sched }
-    ∃ rest, flat sched = encode r.1 ++ rest ∧ (rest = [] ↔ r.2.cell = none) ∧
-      (rest ≠ [] → ¬ StartsWithChar rest) := by
+    ∃ pre rest more, flat sched = encode pre ++ rest ∧ (rest ≠ [] → ¬ StartsWithChar rest) ∧
+      r.1 = pre ++ (if lastLineIsDirective pre then '\n' :: more else []) ∧
+      (rest = [] → more = []) ∧ (rest = [] ↔ r.2.cell = none) := by
   intro r
-  have hfuel : (flat sched).length < Sched.bytes sched + 1 := by simp [Sched.bytes]
-  have h1 := collect_eq_flat (Sched.bytes sched + 1) { reader := sched } hs rfl rfl hfuel
-  have h2 := flatDecode_spec (Sched.bytes sched + 1) (flat sched) hfuel
-  refine ⟨(flatDecode (Sched.bytes sched + 1) (flat sched)).2.2, ?_, ?_, h2.2.2⟩
-  · show flat sched = encode (collect _ _).1 ++ _
-    rw [h1.1]; exact h2.1
-  · show _ ↔ (collect _ _).2.cell = none
-    rw [h1.2]; exact h2.2.1
+  let F := 2 * Sched.bytes sched + 2
+  let cc0 : CC := { reader := sched }
+  have hfuel : (flat sched).length < F := by simp [F, Sched.bytes]; omega
+  have h1 := collect_eq_flat F cc0 hs rfl rfl hfuel
+  have h2 := flatDecode_spec F (flat sched) hfuel
+  have hlen := collectRaw_len F cc0
+  have hfin : (collectRaw F cc0).1.length < F := by
+    have : (flat cc0.reader).length = (flat sched).length := rfl
+    omega
+  have hflags := collectRaw_flags F cc0
+  rw [flags_spec] at hflags
+  have hdir : (collectRaw F cc0).2.inDirectiveLine = lastLineIsDirective (collectRaw F cc0).1 :=
+    congrArg Prod.snd hflags
+  have hr : r = collect F cc0 := rfl
+  have hpre : (collectRaw F cc0).1 = (flatDecode F (flat sched)).1 := h1.1
+  have hcell : (collectRaw F cc0).2.cell = (flatDecode F (flat sched)).2.1 := h1.2
+  by_cases hrest : (flatDecode F (flat sched)).2.2 = []
+  · -- the input simply ended: the reader is drained
+    have hce := collectRaw_clean_end F cc0 hs rfl hfuel hrest
+    obtain ⟨c1, c2⟩ := collect_seg_clean F cc0 hfin hce.1
+    refine ⟨(flatDecode F (flat sched)).1, (flatDecode F (flat sched)).2.2, [], h2.1, h2.2.2, ?_,
+      fun _ => rfl, fun _ => ?_, fun _ => hrest⟩
+    · rw [hr, c1, hdir, hpre]
+    · rw [hr, c2, hce.2]
+  · obtain ⟨more, c1, c2, c3⟩ := collect_seg_general F cc0 hfin
+    have hsome : (collectRaw F cc0).2.cell.isSome = true := by
+      rw [hcell]
+      cases hk : (flatDecode F (flat sched)).2.1 with
+      | none => exact absurd (h2.2.1.2 hk) hrest
+      | some k => rfl
+    refine ⟨(flatDecode F (flat sched)).1, (flatDecode F (flat sched)).2.2, more, h2.1, h2.2.2, ?_,
+      fun h => absurd h hrest, fun h => absurd h hrest, fun hnone => ?_⟩
+    · rw [hr, c1, hdir, hpre]
+    · have := c2 hsome
+      rw [hr] at hnone
+      rw [hnone] at this
+      simp at this
 
 /-- (T) the result does not depend on the schedule: two partitions of the same bytes give the same
-characters and the same recorded error kind. -/
+characters (synthetic break included, also past malformed sequences) and the same recorded error kind. -/
 theorem chunked_chars_schedule_independent (s1 s2 : Sched) (h1 : chunked s1 = true) (h2 : chunked s2 = true)
     (hf : flat s1 = flat s2) :
     (collectAll { reader := s1 }).1 = (collectAll { reader := s2 }).1 ∧
     (collectAll { reader := s1 }).2.cell = (collectAll { reader := s2 }).2.cell := by
   have hb : Sched.bytes s1 = Sched.bytes s2 := by simp [Sched.bytes, hf]
-  have a := collect_eq_flat (Sched.bytes s1 + 1) { reader := s1 } h1 rfl rfl (by simp [Sched.bytes])
-  have b := collect_eq_flat (Sched.bytes s2 + 1) { reader := s2 } h2 rfl rfl (by simp [Sched.bytes])
-  simp only [collectAll]
-  rw [a.1, a.2, b.1, b.2, hf, hb]
-  exact ⟨rfl, rfl⟩
+  simp only [collectAll, hb]
+  exact collect_indep _ { reader := s1 } { reader := s2 } ⟨h1, h2, hf, rfl, rfl, rfl, rfl, rfl⟩
 
-/-- (T) corollary for well-formed input: every partition of the UTF-8 encoding of a text yields exactly
-that text and no error — what the reader path hands to the scanner is what `from_str` hands to it. -/
+theorem flatDecode_encode : ∀ (t : List Char) (fuel : Nat), (encode t).length < fuel →
+    (flatDecode fuel (encode t)).1 = t ∧ (flatDecode fuel (encode t)).2.1 = none ∧
+    (flatDecode fuel (encode t)).2.2 = [] := by
+  intro t
+  induction t with
+  | nil =>
+    intro fuel h
+    cases fuel with
+    | zero => omega
+    | succ f => simp [encode, flatDecode, flatStep]
+  | cons c cs ih =>
+    intro fuel h
+    cases fuel with
+    | zero => omega
+    | succ f =>
+      obtain ⟨b, r, he, _, hn⟩ := encodeChar_shape c
+      have hd := decode1_encodeChar c
+      have hstep : flatStep (encode (c :: cs)) = .char c (encode cs) := by
+        simp only [encode, he, List.cons_append, flatStep, hn]
+        have : ¬ (r ++ encode cs).length < r.length + 1 - 1 := by simp
+        rw [if_neg this]
+        have ht : (r ++ encode cs).take (r.length + 1 - 1) = r := by simp
+        rw [ht, ← he, hd]
+        simp
+      have hl : (encode cs).length < f := by
+        have : (encode (c :: cs)).length = (encodeChar c).length + (encode cs).length := by simp [encode]
+        rw [he] at this; simp at this; omega
+      have := ih f hl
+      simp only [flatDecode, hstep]
+      exact ⟨by rw [this.1], this.2.1, this.2.2⟩
+
+/-- (T) chunked_chars_valid.  For well-formed input: every partition of the UTF-8 encoding of a text yields
+exactly `terminated text` — the text, plus ONE line break iff its unterminated last line starts with `%`
+(what `from_str` would see for the same text ending in a line break) — and no error. -/
 theorem chunked_chars_valid (text : List Char) (sched : Sched) (hs : chunked sched = true)
     (hf : flat sched = encode text) :
-    (collectAll { reader := sched }).1 = text ∧ (collectAll { reader := sched }).2.cell = none := by
-  have hfuel : (flat sched).length < Sched.bytes sched + 1 := by simp [Sched.bytes]
-  have h1 := collect_eq_flat (Sched.bytes sched + 1) { reader := sched } hs rfl rfl hfuel
-  have key : ∀ (t : List Char) (fuel : Nat), (encode t).length < fuel →
-      (flatDecode fuel (encode t)).1 = t ∧ (flatDecode fuel (encode t)).2.1 = none := by
-    intro t
-    induction t with
-    | nil =>
-      intro fuel h
-      cases fuel with
-      | zero => omega
-      | succ f => simp [encode, flatDecode, flatStep]
-    | cons c cs ih =>
-      intro fuel h
-      cases fuel with
-      | zero => omega
-      | succ f =>
-        obtain ⟨b, r, he, _, hn⟩ := encodeChar_shape c
-        have hd := decode1_encodeChar c
-        have hstep : flatStep (encode (c :: cs)) = .char c (encode cs) := by
-          simp only [encode, he, List.cons_append, flatStep, hn]
-          have : ¬ (r ++ encode cs).length < r.length + 1 - 1 := by simp
-          rw [if_neg this]
-          have ht : (r ++ encode cs).take (r.length + 1 - 1) = r := by simp
-          rw [ht, ← he, hd]
-          simp
-        have hl : (encode cs).length < f := by
-          have : (encode (c :: cs)).length = (encodeChar c).length + (encode cs).length := by simp [encode]
-          rw [he] at this; simp at this; omega
-        have := ih f hl
-        simp only [flatDecode, hstep]
-        exact ⟨by rw [this.1], this.2⟩
-  simp only [collectAll]
-  rw [h1.1, h1.2, hf]
-  exact key text _ (by rw [← hf]; exact hfuel)
+    (collectAll { reader := sched }).1 = terminated text ∧ (collectAll { reader := sched }).2.cell = none := by
+  let F := 2 * Sched.bytes sched + 2
+  have hfuel : (encode text).length < F := by rw [← hf]; simp [F, Sched.bytes]; omega
+  have hk := flatDecode_encode text F hfuel
+  let cc0 : CC := { reader := sched }
+  have hfuel' : (flat sched).length < F := by rw [hf]; exact hfuel
+  have e1 := collect_eq_flat F cc0 hs rfl rfl hfuel'
+  have hlen := collectRaw_len F cc0
+  have hfin : (collectRaw F cc0).1.length < F := by
+    have : (flat cc0.reader).length = (flat sched).length := rfl
+    omega
+  have hflags := collectRaw_flags F cc0
+  rw [flags_spec] at hflags
+  have hdir : (collectRaw F cc0).2.inDirectiveLine = lastLineIsDirective (collectRaw F cc0).1 :=
+    congrArg Prod.snd hflags
+  have hpre : (collectRaw F cc0).1 = text := by
+    have := e1.1
+    simp only [cc0, hf] at this
+    rw [this, hk.1]
+  have hce := collectRaw_clean_end F cc0 hs rfl hfuel' (by simp only [cc0, hf]; exact hk.2.2)
+  obtain ⟨c1, c2⟩ := collect_seg_clean F cc0 hfin hce.1
+  have hr : collectAll { reader := sched } = collect F cc0 := rfl
+  rw [hr, c1, c2, hdir, hpre, hce.2]
+  refine ⟨?_, rfl⟩
+  unfold terminated
+  split <;> simp
+
+/-! ### the synthetic line break (fix bfd6267), for every schedule, chunking and fault position -/
+
+/-- (T) synthetic_break_iff.  For ANY schedule (faults, empty reads, caps included), from a fresh
+`ChunkedChars`: let `cs` be the real characters delivered until `next_char` first reports the end (EOF,
+I/O error, malformed sequence or size cap).  The sequence `next` yields is `cs` and then — EXACTLY when the
+unterminated last line of `cs` starts with `%` (byte-order marks in front ignored) — the synthetic `\n`. -/
+theorem synthetic_break_iff (cc : CC) (hfresh : cc.atLineStart = true ∧ cc.inDirectiveLine = false)
+    (fuel : Nat) (hfin : (collectRaw fuel cc).1.length < fuel) :
+    ∃ more, (collect fuel cc).1 =
+      (collectRaw fuel cc).1 ++ (if lastLineIsDirective (collectRaw fuel cc).1 then '\n' :: more else []) := by
+  have hflags := collectRaw_flags fuel cc
+  rw [hfresh.1, hfresh.2, flags_spec] at hflags
+  have hdir : (collectRaw fuel cc).2.inDirectiveLine = lastLineIsDirective (collectRaw fuel cc).1 :=
+    congrArg Prod.snd hflags
+  obtain ⟨more, c1, _, _⟩ := collect_seg_general fuel cc hfin
+  exact ⟨more, by rw [c1, hdir]⟩
+
+/-- (T) the break is emitted once: whenever `next` returns `None` the directive flag is down, and with the
+flag down `next` returns `None` whenever `next_char` does — so after the first `None` every later call
+returns `None` for as long as the reader delivers nothing more (always, for an exhausted or a persistently
+failing reader); no second synthetic character can appear without a new `%` line being read. -/
+theorem none_is_stable (cc : CC) :
+    ((next cc).1 = none → (next cc).2.inDirectiveLine = false) ∧
+    (cc.inDirectiveLine = false → (nextChar cc).1 = none → (next cc).1 = none ∧ (next cc).2.inDirectiveLine = false) := by
+  have hf := nextChar_flags cc
+  unfold next
+  cases hn : nextChar cc with
+  | mk r cc' =>
+    rw [hn] at hf
+    cases r with
+    | some c => simp
+    | none =>
+      simp only []
+      by_cases hd : cc'.inDirectiveLine = true
+      · simp only [hd, if_true]
+        refine ⟨fun h => by simp at h, fun h _ => ?_⟩
+        have := hf.2
+        simp only at this
+        rw [this, h] at hd
+        cases hd
+      · simp only [hd, Bool.false_eq_true, if_false]
+        simp [hd]
+
+/-- (T) after the end: an exhausted reader with the flag down yields `None` forever and nothing changes -/
+theorem exhausted_stays_none (cc : CC) (hr : cc.reader = []) (hd : cc.inDirectiveLine = false) (fuel : Nat) :
+    next cc = (none, cc) ∧ collect fuel cc = ([], cc) :=
+  ⟨next_exhausted cc hr hd, collect_exhausted fuel cc hr hd⟩
+
+/-- (E) `%YAML` cut by EOF, by an I/O error, and by the size cap: one synthetic break each, then `None` -/
+example : (collectAll { reader := [.data [0x25, 0x59], .data [0x41]] }).1 = ['%', 'Y', 'A', '\n'] := by decide
+example : (runSteps 8 3 { reader := [.data [0x25, 0x59], .fail kOther] }).1 =
+    [(some '%', none), (some 'Y', none), (some '\n', some kOther), (none, none), (none, none), (none, none)] := by decide
+example : (collectAll { reader := [.data [0x25, 0x59, 0x41, 0x4D]], maxBytes := some 2 }).1 = ['%', 'Y', '\n'] := by
+  decide
+/-- (E) a terminated directive line, a `%` that is not at column 0, a leading BOM -/
+example : (collectAll { reader := [.data [0x25, 0x59, 0x0A]] }).1 = ['%', 'Y', '\n'] := by decide
+example : (collectAll { reader := [.data [0x61, 0x25]] }).1 = ['a', '%'] := by decide
+example : (collectAll { reader := [.data [0xEF, 0xBB, 0xBF, 0x25, 0x59]] }).1 = [BOM, '%', 'Y', '\n'] := by decide
+example : lastLineIsDirective ['a', '\n', '%', 'x'] = true ∧ lastLineIsDirective ['%', 'x', '\n'] = false ∧
+    lastLineIsDirective ['a', '%'] = false := by decide
 
 /-! ### the diagnostic ring buffer is transparent -/
 
@@ -132,62 +246,86 @@ theorem single_bom_ignored (t : List Char) (h : t.head? ≠ some BOM) :
       simpa using h
     simp [strPathText, closureStrPathText, readerPathText, stripBom, hc]
 
-/-- (F) double_bom_disagrees: on an input that starts with TWO U+FEFF the string path removes both
-(`from_str_with_options_impl` and `LiveEvents::from_str` each strip one) while the reader path removes
-one: the scanner sees different texts (`a: 1` vs `\u{feff}a: 1`).  Replayed on the implementation by
-the `reader` oracle (known finding `C09-double-bom`). -/
-theorem double_bom_disagrees :
-    strPathText [BOM, BOM, 'a', ':', ' ', '1'] = ['a', ':', ' ', '1'] ∧
-    readerPathText [BOM, BOM, 'a', ':', ' ', '1'] = [BOM, 'a', ':', ' ', '1'] ∧
-    strPathText [BOM, BOM, 'a', ':', ' ', '1'] ≠ readerPathText [BOM, BOM, 'a', ':', ' ', '1'] := by
-  decide
+/-- (T) bom_stripped_once (regression of the former (F) `double_bom_disagrees`, fixed by aed36af): every
+entry-point family removes exactly one leading U+FEFF, so they hand the scanner the same text for EVERY
+input — in particular for an input starting with two byte-order marks, where the string path used to remove
+both (oracle id `C09-double-bom`). -/
+theorem bom_stripped_once (t : List Char) :
+    strPathText t = readerPathText t ∧ closureStrPathText t = readerPathText t ∧
+    strPathText (BOM :: BOM :: t) = BOM :: t ∧ readerPathText (BOM :: BOM :: t) = BOM :: t := by
+  simp [strPathText, closureStrPathText, readerPathText, stripBom]
 
 /-! ### the entry points are one pipeline -/
 
 /-- (T) entry_points_same_pipeline.  In the model the str / slice / closure / reader entry points are the
 same composition — the same protocol over the same pump over the items the scanner produces for the text
-it is handed.  For every scanner function, every pump configuration, every consumer, every text that does
-not start with two byte-order marks and EVERY partition of its UTF-8 encoding into read results they
-return the same outcome (value-or-error, error kind and location).  What is assumed, not proved: that the
+it is handed.  For every scanner function, every pump configuration, every consumer, EVERY text and EVERY
+partition of its UTF-8 encoding into read results: the string, closure and slice entry points agree on the
+text, and the reader entry point returns what they return for `terminated text` — the same text, with one
+line break added iff it stops inside a `%` line (fix bfd6267).  What is assumed, not proved: that the
 scanner is one function of the text for both of its input types. -/
 theorem entry_points_same_pipeline (p : Pipeline) (text : List Char) (sched : Sched)
-    (hs : chunked sched = true) (hf : flat sched = encode text)
-    (hb : strPathText text = readerPathText text) :
-    p.fromReaderEntry sched = p.fromStr text ∧ p.closureFromStr text = p.fromStr text ∧
+    (hs : chunked sched = true) (hf : flat sched = encode text) :
+    p.fromReaderEntry sched = p.fromStr (terminated text) ∧ p.closureFromStr text = p.fromStr text ∧
     p.fromSlice (encode text) = p.fromStr text := by
   have hv := chunked_chars_valid text sched hs hf
   refine ⟨?_, rfl, ?_⟩
-  · simp only [Pipeline.fromReaderEntry, Pipeline.fromStr, hv.1, hb]
-  · unfold Pipeline.fromSlice utf8Validate
-    by_cases he : (encode text).isEmpty = true
-    · simp only [he, if_true]
-      have : text = [] := by
-        cases text with
-        | nil => rfl
-        | cons c cs =>
-          obtain ⟨b, r, hc, _⟩ := encodeChar_shape c
-          simp [encode, hc] at he
-      subst this; rfl
-    · simp only [he]
-      have hne : encode text ≠ [] := by simpa using he
-      have hv2 := chunked_chars_valid text [.data (encode text)]
-        (by cases h : encode text with
-            | nil => exact absurd h hne
-            | cons b bs => simp [chunked]) (by simp [flat])
-      simp [hv2.1, hv2.2]
+  · simp only [Pipeline.fromReaderEntry, Pipeline.fromStr, hv.1, strPathText, readerPathText]
+  · have key : ∀ (t : List Char) (fuel : Nat), (encode t).length < fuel → utf8ValidateF fuel (encode t) = some t := by
+      intro t
+      induction t with
+      | nil =>
+        intro fuel h
+        cases fuel with
+        | zero => omega
+        | succ f => simp [encode, utf8ValidateF]
+      | cons c cs ih =>
+        intro fuel h
+        cases fuel with
+        | zero => omega
+        | succ f =>
+          obtain ⟨b, r, he, _, hn⟩ := encodeChar_shape c
+          have hd := decode1_encodeChar c
+          have hl : (encode cs).length < f := by
+            have : (encode (c :: cs)).length = (encodeChar c).length + (encode cs).length := by simp [encode]
+            rw [he] at this; simp at this; omega
+          simp only [encode, he, List.cons_append, utf8ValidateF, hn]
+          have : ¬ (r ++ encode cs).length < r.length + 1 - 1 := by simp
+          rw [if_neg this]
+          have ht : (r ++ encode cs).take (r.length + 1 - 1) = r := by simp
+          rw [ht, ← he, hd]
+          simp [ih f hl]
+    unfold Pipeline.fromSlice utf8Validate
+    rw [key text _ (Nat.lt_succ_self _)]
 
-/-- (T) borrow_iff_parser_borrowed (model level): a `&str` target succeeds exactly when the parser handed the
-scalar out as a slice of the input, and then it receives the same text as a `String` target. -/
-theorem borrow_iff_parser_borrowed (b : Bool) (t : List Char) :
-    ((visitStrRef (deserializeStr b t)).isSome = b) ∧
-    (∀ s, visitStrRef (deserializeStr b t) = some s → visitString (deserializeStr b t) = some s) ∧
-    visitString (deserializeStr b t) = some t := by
-  cases b <;> simp [deserializeStr, visitStrRef, visitString]
+/-- (T) the common case: a text that does not stop inside a `%` line — all four families agree -/
+theorem entry_points_agree (p : Pipeline) (text : List Char) (sched : Sched)
+    (hs : chunked sched = true) (hf : flat sched = encode text) (hd : lastLineIsDirective text = false) :
+    p.fromReaderEntry sched = p.fromStr text := by
+  have := (entry_points_same_pipeline p text sched hs hf).1
+  simpa [terminated, hd] using this
+
+/-- (T) borrow_iff_parser_borrowed (model level): a `&str` target succeeds exactly when the tag keeps the text
+and the parser handed the scalar out as a slice of the input; whenever it succeeds it receives the same text
+as a `String` target, and whenever the tag refuses a `String` it refuses a `&str` too (regression of the
+former finding `C09-borrowed-str-ignores-tag`, fixed by 7f69297). -/
+theorem borrow_iff_parser_borrowed (eff : TagEffect) (b : Bool) (t : List Char) :
+    (((deserializeStr eff b t).bind visitStrRef).isSome = (b && eff == .keep)) ∧
+    (∀ s, (deserializeStr eff b t).bind visitStrRef = some s → (deserializeString eff b t).bind visitString = some s) ∧
+    ((deserializeString eff b t).bind visitString = none → (deserializeStr eff b t).bind visitStrRef = none) := by
+  cases eff <;> cases b <;> simp [deserializeStr, deserializeString, visitStrRef, visitString]
 
 /-- (T) reader_never_lends (model level): with the parser's `Cow` never `Borrowed` for reader input, a
 borrowed target is always refused. -/
-theorem reader_never_lends (t : List Char) : visitStrRef (deserializeStr readerParserBorrowed t) = none := by
-  simp [deserializeStr, visitStrRef, readerParserBorrowed]
+theorem reader_never_lends (eff : TagEffect) (t : List Char) :
+    (deserializeStr eff readerParserBorrowed t).bind visitStrRef = none := by
+  cases eff <;> simp [deserializeStr, deserializeString, visitStrRef, readerParserBorrowed]
+
+/-- (E) `!!binary aGk=`: the tag transforms the text — `String` gets `hi`, `&str` is refused (it used to get
+the raw `aGk=`); `!!float 007`: both refused -/
+example : (deserializeString (.transformed ['h', 'i']) true ['a', 'G', 'k', '=']).bind visitString = some ['h', 'i'] ∧
+    (deserializeStr (.transformed ['h', 'i']) true ['a', 'G', 'k', '=']).bind visitStrRef = none ∧
+    (deserializeStr .refused true ['0', '0', '7']).bind visitStrRef = none := by decide
 
 /-! ### non-vacuity -/
 
